@@ -12,12 +12,16 @@ only = only[0].split(",") if only else None
 prog = Program()
 ex = Exec(prog, REG)
 results = []
-for name, c in REG.contracts.items():
+for name, c in list(REG.contracts.items()):
     if c.trusted: continue
     if only and name not in only: continue
     r = ex.verify(c)
     results.append(r)
     print(f"{name}: paths={r.paths} exits={r.exit_kinds} obls={len(r.obligations)} unsupported={r.unsupported} gen={r.gen_seconds:.2f}s")
+for name, lem in REG.lemma_obs.items():
+    if only and ("lemma:"+name) not in only: continue
+    r = ex.verify_lemma(lem); results.append(r)
+    print(f"lemma:{name}: obls={len(r.obligations)} unsupported={r.unsupported}")
 t = discharge(results, budget=30)
 for r in results:
     for ob in r.obligations + r.covers:
